@@ -1847,8 +1847,10 @@ HTTP/1.1 200 Ok\r\n\r\n";
 		rpl = rpl403, rpz = strlenof(rpl403);
 		goto hdr;
 	}
-	/* massage user */
-	u = u ?: cmd->uid;
+	/* massage user, root may look at everybody's, by default his own */
+	if (!u && cmd->uid != (uid_t)-1) {
+		u = cmd->uid;
+	}
 
 	switch (cmd->rou) {
 		char fn[PATH_MAX];
